@@ -25,6 +25,7 @@ import (
 //	<side>:co / ca       CreateOffer / CreateAnswer (remembered as that side's last offer / answer)
 //	<side>:slo / sla     SetLocalDescription(own last offer / own last answer)
 //	<side>:sro / sra     SetRemoteDescription(the peer's last offer / last answer)
+//	<side>:slp / srp     the same with the last answer's text applied as a provisional answer (type pranswer)
 //	<side>:cl            Close
 //
 // After every op the harness waits (with a deadline) until both operations queues are drained or are
@@ -33,7 +34,7 @@ import (
 //
 //	<err> <A> <B>      err: 1 = the API call returned an error, 0 = nil, - = skipped
 //	                   A,B: <sig><I|B><n|-><c|->:<count>   signaling state (s stable, l have-local-offer,
-//	                   r have-remote-offer, c closed, ? other); I idle / B blocked; [[NegotiationNeeded]];
+//	                   r have-remote-offer, p have-local-pranswer, q have-remote-pranswer, c closed, ? other); I idle / B blocked; [[NegotiationNeeded]];
 //	                   checkNegotiationNeeded(); cumulative number of OnNegotiationNeeded invocations
 //
 // and at the end `fa <state…> fb <state…>`: the signaling state captured inside each handler invocation.
@@ -72,6 +73,10 @@ func c04SigLetter(s webrtc.SignalingState) string {
 		return "l"
 	case webrtc.SignalingStateHaveRemoteOffer:
 		return "r"
+	case webrtc.SignalingStateHaveLocalPranswer:
+		return "p"
+	case webrtc.SignalingStateHaveRemotePranswer:
+		return "q"
 	case webrtc.SignalingStateClosed:
 		return "c"
 	default:
@@ -246,12 +251,15 @@ func (s *c04Side) apply(f []string) string {
 		}
 
 		return res(err)
-	case "slo", "sla":
+	case "slo", "sla", "slp":
 		d := empty(webrtc.SDPTypeOffer)
-		if f[1] == "sla" {
+		if f[1] != "slo" {
 			d = empty(webrtc.SDPTypeAnswer)
 			if s.lastAnswer != nil {
 				d = *s.lastAnswer
+			}
+			if f[1] == "slp" { // the created answer, applied as a provisional one
+				d = webrtc.SessionDescription{Type: webrtc.SDPTypePranswer, SDP: d.SDP}
 			}
 		} else if s.lastOffer != nil {
 			d = *s.lastOffer
@@ -265,12 +273,15 @@ func (s *c04Side) apply(f []string) string {
 		}
 
 		return res(err)
-	case "sro", "sra":
+	case "sro", "sra", "srp":
 		d := empty(webrtc.SDPTypeOffer)
-		if f[1] == "sra" {
+		if f[1] != "sro" {
 			d = empty(webrtc.SDPTypeAnswer)
 			if s.peer.lastAnswer != nil {
 				d = *s.peer.lastAnswer
+			}
+			if f[1] == "srp" {
+				d = webrtc.SessionDescription{Type: webrtc.SDPTypePranswer, SDP: d.SDP}
 			}
 		} else if s.peer.lastOffer != nil {
 			d = *s.peer.lastOffer
@@ -460,8 +471,8 @@ type c04Gen struct {
 	lastSender map[string]int
 	// the round in progress: offerer, and how many of its six steps have been emitted
 	offerer string
+	order   []string
 	step    int
-	swapEnd bool
 }
 
 func c04Other(s string) string {
@@ -482,25 +493,54 @@ func (g *c04Gen) side() string {
 
 func (g *c04Gen) emit(format string, a ...any) { g.toks = append(g.toks, fmt.Sprintf(format, a...)) }
 
-// advance emits the next n steps of the round in progress (starting one if there is none).
-func (g *c04Gen) advance(n int) {
-	for ; n > 0; n-- {
-		if g.offerer == "" {
-			g.offerer = g.side()
-			g.step = 0
-			g.swapEnd = g.c.Rng.Intn(8) == 0
-		}
-		x, y := g.offerer, c04Other(g.offerer)
-		order := []string{x + ":co", x + ":slo", y + ":sro", y + ":ca", y + ":sla", x + ":sra"}
-		if g.swapEnd {
-			order[4], order[5] = order[5], order[4]
-		}
-		g.emit("%s", order[g.step])
-		g.step++
-		if g.step == 6 {
-			g.offerer = ""
+// newRound fixes the calls of the next offer/answer round: the six calls of a plain exchange, in one round
+// out of four with the answer first applied as a provisional answer on the answering side (slp, sometimes
+// followed by a second CreateAnswer), in one out of five also on the offering side (srp); in one round out
+// of eight the last two calls are swapped.
+func (g *c04Gen) newRound() {
+	r := g.c.Rng
+	if g.offerer == "" {
+		g.offerer = g.side()
+	}
+	g.step = 0
+	x, y := g.offerer, c04Other(g.offerer)
+	o := []string{x + ":co", x + ":slo", y + ":sro", y + ":ca"}
+	if r.Intn(4) == 0 {
+		o = append(o, y+":slp")
+		if r.Intn(3) == 0 {
+			o = append(o, y+":ca")
 		}
 	}
+	if r.Intn(5) == 0 {
+		o = append(o, x+":srp")
+	}
+	o = append(o, y+":sla", x+":sra")
+	if r.Intn(8) == 0 {
+		o[len(o)-2], o[len(o)-1] = o[len(o)-1], o[len(o)-2]
+	}
+	g.order = o
+}
+
+// advance emits the next n calls of the round in progress (starting one if there is none).
+func (g *c04Gen) advance(n int) {
+	for ; n > 0; n-- {
+		if g.order == nil {
+			g.newRound()
+		}
+		g.emit("%s", g.order[g.step])
+		g.step++
+		if g.step == len(g.order) {
+			g.offerer, g.order = "", nil
+		}
+	}
+}
+
+// finish completes the round in progress, or runs a whole one.
+func (g *c04Gen) finish() {
+	if g.order == nil {
+		g.newRound()
+	}
+	g.advance(len(g.order) - g.step)
 }
 
 func (g *c04Gen) addTrack(s string) {
@@ -558,13 +598,13 @@ func (g *c04Gen) element() {
 	case p < 50:
 		g.emit("%s:dc", s)
 	case p < 70: // complete the round in progress, or run a whole one
-		g.advance(6 - g.step)
+		g.finish()
 	case p < 88: // part of a round
 		g.advance(1 + r.Intn(3))
 	case p < 92: // an offer that may never be applied
 		g.emit("%s:co", s)
 	case p < 96: // malformed stream: a signaling call out of order
-		g.emit("%s:%s", s, []string{"co", "ca", "slo", "sla", "sro", "sra"}[r.Intn(6)])
+		g.emit("%s:%s", s, []string{"co", "ca", "slo", "sla", "sro", "sra", "slp", "srp"}[r.Intn(8)])
 	default:
 		g.emit("%s:cl", s)
 	}
@@ -572,7 +612,8 @@ func (g *c04Gen) element() {
 
 // c04Enumerate emits every sequence of at most `left` further elements over the reduced alphabet
 // {a: AddTrack(next new video track), a: RemoveTrack(last sender), a: AddTransceiverFromKind(video, recvonly),
-// a: CreateDataChannel, a complete round offered by a, a complete round offered by b, b: AddTrack(next new)}.
+// a: CreateDataChannel, a complete round offered by a, a complete round offered by b, b: AddTrack(next new),
+// a round offered by a in which both sides apply the answer provisionally first}.
 func c04Enumerate(c *Ctx, prefix []int, left int) {
 	if len(prefix) > 0 {
 		toks := []string{}
@@ -600,6 +641,8 @@ func c04Enumerate(c *Ctx, prefix []int, left int) {
 			case 6:
 				toks = append(toks, fmt.Sprintf("b:at:v%d", nb))
 				nb++
+			case 7:
+				toks = append(toks, "a:co", "a:slo", "b:sro", "b:ca", "b:slp", "a:srp", "b:sla", "a:sra")
 			}
 		}
 		c.Emit("h %s", strings.Join(toks, " "))
@@ -607,7 +650,7 @@ func c04Enumerate(c *Ctx, prefix []int, left int) {
 	if left == 0 {
 		return
 	}
-	for e := 0; e < 7; e++ {
+	for e := 0; e < 8; e++ {
 		c04Enumerate(c, append(append([]int{}, prefix...), e), left-1)
 	}
 }
@@ -616,12 +659,14 @@ func init() {
 	registry["C04"] = &Prop{
 		Workers: 8,
 		Timeout: 120 * time.Second,
-		Rule: "17 scripted histories (one or two per clause of checkNegotiationNeeded / negotiationNeededOp, blocked " +
+		Rule: "21 scripted histories (one or two per clause of checkNegotiationNeeded / negotiationNeededOp, blocked " +
 			"phases, Close) plus " +
 			"seeded random sequential histories on a real PeerConnection pair over loopback: at most 12 elements, " +
 			"an element being AddTrack (new or re-used local track), RemoveTrack (existing or unknown sender), " +
 			"AddTransceiverFromKind (sendrecv/sendonly/recvonly, rarely the rejected inactive), CreateDataChannel, " +
-			"a complete offer/answer round (6 calls, sometimes with the last two swapped), 1-3 further calls of the " +
+			"a complete offer/answer round (6 calls; in one round out of four the answer is first applied as a " +
+			"provisional answer on the answering side, in one out of five on the offering side; sometimes the last " +
+			"two calls swapped), 1-3 further calls of the " +
 			"round in progress (partial exchanges: other elements fall in between), a CreateOffer that may never be " +
 			"applied, a signaling call out of order (malformed stream), Close; 62% of the calls go to side a. After " +
 			"every call both operations queues are awaited (deadline 12 s) until drained or blocked on the peer " +
@@ -629,34 +674,39 @@ func init() {
 			"the line inconclusive. Four histories in five start with 1-2 tracks/transceivers/channels on the side that " +
 			"offers first. Thorough adds, completely enumerated, every history of at most four elements over the " +
 			"reduced alphabet {a:AddTrack(new), a:RemoveTrack(last), a:AddTransceiverFromKind(video,recvonly), " +
-			"a:CreateDataChannel, round offered by a, round offered by b, b:AddTrack(new)} (2800 histories). " +
+			"a:CreateDataChannel, round offered by a, round offered by b, b:AddTrack(new), round offered by a with " +
+			"provisional answers on both sides} (4680 histories). " +
 			"Trivial: a history in which no handler invocation happened on either side.",
 		Gen: func(c *Ctx) {
 			// scripted stream: one or two histories per clause of checkNegotiationNeeded / negotiationNeededOp
 			ra := "a:co a:slo b:sro b:ca b:sla a:sra"
 			rb := "b:co b:slo a:sro a:ca a:sla b:sra"
 			for _, h := range []string{
-				"a:at:v0 a:at:v1",                                                   // step 3 (no local description), 4.7.3.2.5
-				"a:dc a:dc " + ra + " a:dc b:dc",                                    // step 4: first data channel only
-				"b:dc " + rb + " a:dc a:at:a0",                                      // … negotiated by the peer
-				"a:at:v0 " + ra + " a:at:v1 a:tr:a:ro",                              // step 5.2: no m-section for the mid
-				"a:tr:v:ro " + ra + " b:at:v0 " + rb,                                // 5.3.1: sendonly without sender (answerer), re-use
-				"a:tr:v:ro " + ra + " a:at:v0 " + ra + " a:rt:0",                    // 5.3.1 msid; 5.3.2 after RemoveTrack
-				"a:at:v0 " + ra + " a:rt:0 " + ra,                                   // 5.3.2: offerer's direction changed
-				"a:tr:v:sr a:tr:a:so " + ra + " a:rt:1 a:rt:0",                      // 5.3.2: sendonly -> inactive, sendrecv -> recvonly
-				"b:at:v0 a:at:v0 " + ra + " b:rt:0",                                 // 5.3.3: answerer's direction changed
-				"b:tr:a:so a:tr:a:ro " + ra + " b:rt:0 " + rb,                       // 5.3.3: sendonly answer, then inactive
-				"a:at:v0 a:co a:slo a:at:a0 a:dc b:sro b:ca b:sla a:sra " + ra,      // change during have-local-offer
-				"b:at:v0 b:co b:slo a:sro a:at:v1 a:tr:a:ro a:ca a:sla b:sra",       // change during have-remote-offer
-				"a:at:v0 a:co a:slo b:sro b:ca a:sra a:at:v1 b:sla",                 // offerer blocked in startTransports
-				"a:at:v0 " + ra + " b:dc b:co b:slo a:sro a:ca a:sla a:at:v1 b:sra", // answerer blocked in SCTP start
-				"a:at:v0 " + ra + " a:cl a:at:v1 a:dc b:at:v0 " + rb,                // nothing after Close
-				"a:at:v0 a:co a:slo b:sro a:at:v1 a:cl b:ca b:sla b:at:v0",          // Close with queued work
-				"a:co a:slo b:sro b:ca b:sla a:sra a:at:v0",                         // descriptions without m-sections are refused
+				"a:at:v0 a:at:v1",                                                                   // step 3 (no local description), 4.7.3.2.5
+				"a:dc a:dc " + ra + " a:dc b:dc",                                                    // step 4: first data channel only
+				"b:dc " + rb + " a:dc a:at:a0",                                                      // … negotiated by the peer
+				"a:at:v0 " + ra + " a:at:v1 a:tr:a:ro",                                              // step 5.2: no m-section for the mid
+				"a:tr:v:ro " + ra + " b:at:v0 " + rb,                                                // 5.3.1: sendonly without sender (answerer), re-use
+				"a:tr:v:ro " + ra + " a:at:v0 " + ra + " a:rt:0",                                    // 5.3.1 msid; 5.3.2 after RemoveTrack
+				"a:at:v0 " + ra + " a:rt:0 " + ra,                                                   // 5.3.2: offerer's direction changed
+				"a:tr:v:sr a:tr:a:so " + ra + " a:rt:1 a:rt:0",                                      // 5.3.2: sendonly -> inactive, sendrecv -> recvonly
+				"b:at:v0 a:at:v0 " + ra + " b:rt:0",                                                 // 5.3.3: answerer's direction changed
+				"b:tr:a:so a:tr:a:ro " + ra + " b:rt:0 " + rb,                                       // 5.3.3: sendonly answer, then inactive
+				"a:at:v0 a:co a:slo a:at:a0 a:dc b:sro b:ca b:sla a:sra " + ra,                      // change during have-local-offer
+				"b:at:v0 b:co b:slo a:sro a:at:v1 a:tr:a:ro a:ca a:sla b:sra",                       // change during have-remote-offer
+				"a:at:v0 a:co a:slo b:sro b:ca a:sra a:at:v1 b:sla",                                 // offerer blocked in startTransports
+				"a:at:v0 " + ra + " b:dc b:co b:slo a:sro a:ca a:sla a:at:v1 b:sra",                 // answerer blocked in SCTP start
+				"a:at:v0 " + ra + " a:cl a:at:v1 a:dc b:at:v0 " + rb,                                // nothing after Close
+				"a:at:v0 a:co a:slo b:sro a:at:v1 a:cl b:ca b:sla b:at:v0",                          // Close with queued work
+				"a:tr:v:sr " + ra + " a:tr:a:sr a:co a:slo b:sro b:ca b:slp b:tr:v:ro b:sla a:sra",  // need arises in have-local-pranswer
+				"a:at:v0 " + ra + " a:at:a0 a:co a:slo b:sro b:ca a:srp a:tr:v:ro a:dc b:sla a:sra", // … in have-remote-pranswer
+				"a:at:v0 a:co a:slo b:sro b:ca b:slp b:at:v0 a:srp a:at:v1 b:ca b:sla a:sra",        // first exchange with provisional answers
+				"a:at:v0 a:dc a:co a:slo b:sro b:ca a:srp b:slp b:sla a:sra a:slp b:srp",            // pranswer before the peer gathered; refused ones
+				"a:co a:slo b:sro b:ca b:sla a:sra a:at:v0",                                         // descriptions without m-sections are refused
 			} {
 				c.Emit("h %s", h)
 			}
-			for n := 0; n < c.N(56, 2500); n++ {
+			for n := 0; n < c.N(300, 2500); n++ {
 				g := &c04Gen{c: c, senders: map[string]int{}, tracks: map[string]int{}, lastSender: map[string]int{}}
 				l := 4 + c.Rng.Intn(9)
 				// four histories in five begin with something to negotiate on the side that offers first
@@ -683,8 +733,8 @@ func init() {
 					g.element()
 				}
 				// most histories finish the round they are in, so that connections come up
-				if g.offerer != "" && g.step > 0 && c.Rng.Intn(3) != 0 {
-					g.advance(6 - g.step)
+				if g.order != nil && c.Rng.Intn(3) != 0 {
+					g.finish()
 				}
 				c.Emit("h %s", strings.Join(g.toks, " "))
 			}
